@@ -617,6 +617,13 @@ func passG(repo string, cfg *vc.SolverConfig, only, corpus, scratch string, thor
 			gm2.verifyModArg(lrm.Funcs[name], name)
 		}
 		res.Extra["modifier_arg_helpers"] = nargs
+		// call sites: the k-th argument of a rewritten directive call is the helper
+		// generated for the option at source position L:C, and the k-th parameter of
+		// the implementation function is the one named after the same position -
+		// otherwise two options of one type (Concurrency and a single int Params)
+		// are silently exchanged
+		nsites := modifierCallSites(sink, lrm, modPrefix)
+		res.Extra["modifier_call_sites"] = nsites
 		structural(sink, "role:unrecognised", "shape", "every-enqueued-closure-of-a-modifier-flow-has-a-role", []string{"C20"}, nmod > 0, fmt.Sprintf("%d modifier-mode flows", nmod))
 		res.Extra["modifier_flows"] = nmod
 		os.RemoveAll(gm.work)
@@ -699,3 +706,63 @@ func tokensOf(path string) ([]string, error) {
 }
 
 var _ = types.Typ
+
+
+var posSuffix = regexp.MustCompile(`_(\d+)_(\d+)$`)
+
+func modifierCallSites(sink *vc.Sink, lr *vc.LoadResult, modPrefix string) int {
+	n := 0
+	for _, p := range lr.Pkgs {
+		if !strings.HasPrefix(p.PkgPath, modPrefix) {
+			continue
+		}
+		for _, f := range p.Syntax {
+			ast.Inspect(f, func(nd ast.Node) bool {
+				ce, ok := nd.(*ast.CallExpr)
+				if !ok {
+					return true
+				}
+				id, ok := ce.Fun.(*ast.Ident)
+				if !ok || !strings.HasPrefix(id.Name, "_cffFlow") {
+					return true
+				}
+				fobj, ok := p.TypesInfo.Uses[id].(*types.Func)
+				if !ok {
+					return true
+				}
+				sig := fobj.Type().(*types.Signature)
+				n++
+				good, why := true, p.Fset.Position(ce.Pos()).String()
+				if sig.Params().Len() != len(ce.Args) {
+					good, why = false, why+": arity differs"
+				}
+				for i := 1; good && i < len(ce.Args); i++ {
+					ac, ok := ce.Args[i].(*ast.CallExpr)
+					if !ok {
+						continue
+					}
+					aid, ok := ac.Fun.(*ast.Ident)
+					if !ok {
+						continue
+					}
+					am := posSuffix.FindStringSubmatch(aid.Name)
+					pn := sig.Params().At(i).Name()
+					if am == nil || !strings.HasPrefix(pn, "m") {
+						continue
+					}
+					// helper: _cff<Option><file>_<L>_<C>; parameter: m<file><L>_<C>
+					lc := am[1] + "_" + am[2]
+					base := strings.TrimSuffix(aid.Name, "_"+lc)
+					file := strings.TrimSuffix(strings.TrimPrefix(pn, "m"), lc)
+					if !strings.HasSuffix(pn, lc) || file == strings.TrimPrefix(pn, "m") || !strings.HasSuffix(base, file) {
+						good = false
+						why += fmt.Sprintf(": argument %d is %s but parameter %d is %s", i, aid.Name, i, sig.Params().At(i).Name())
+					}
+				}
+				structural(sink, "role:modflow-call", "shape", "call-site-arguments-line-up-with-the-implementations-parameters", []string{"C20"}, good, why)
+				return true
+			})
+		}
+	}
+	return n
+}
